@@ -20,6 +20,7 @@ pub fn profile() -> ScenarioProfile {
         rf: true,
         ops: vec![Op::Remove, Op::Remove, Op::Link, Op::SoftLink, Op::Dedupe, Op::Move, Op::Move],
         files: (4, 14),
+        hardlinks: 3,
     }
 }
 
